@@ -269,6 +269,48 @@ fn main() {
         run.bound("scale: texts of 100..20000 valid alphabet lines; lines of 255..100000 bytes after six prefixes");
         run.merge(t);
     }
+    // typed-looking arguments: what another parser of the library would canonicalise or reject
+    // (paths, digests, numbers, patterns that do and do not compile) is an argument like any
+    // other for every command; and the directives of sibling tools (older pkg_install, FreeBSD
+    // and OpenBSD packing lists) are unknown commands, not entries of some nearby kind
+    {
+        let mut t = Tally::new();
+        let mut values: Vec<&str> = mc_core::chars::TYPED_VALUES.to_vec();
+        values.extend(mc_core::chars::BROKEN_PATTERNS);
+        // (a line has no line break in it, and VT / FF / CR are bytes the statement leaves open)
+        values.retain(|v| !v.contains(['\n', '\r', '\x0b', '\x0c']));
+        for (cmd, _, _) in mp::COMMANDS.iter() {
+            for v in &values {
+                let line = format!("{} {}", cmd, v).into_bytes();
+                t.states += 1;
+                check_line(&mut t, &line);
+                check_text(&mut t, &[b"@name p-1\n".as_slice(), &line, b"\nbin/x\n"].concat());
+            }
+        }
+        for v in &values {
+            // ... and a file name like any other
+            let line = v.as_bytes().to_vec();
+            t.states += 1;
+            check_line(&mut t, &line);
+            check_text(&mut t, &[b"@cwd /p\n".as_slice(), &line, b"\n"].concat());
+        }
+        const FOREIGN: [&str; 64] = [
+            "@mtree", "@srcdir", "@dir", "@dirrmtry", "@rmtry", "@conflicts", "@depend", "@depends", "@pkgconflict", "@noinst", "@sample", "@info", "@shell", "@kld", "@preexec", "@postexec",
+            "@preunexec", "@postunexec", "@fc", "@fcfontsdir", "@fontsdir", "@terminfo", "@glib-schemas", "@desktop-file-utils", "@config", "@stopdaemon", "@bin", "@lib", "@man", "@extra", "@newuser", "@newgroup",
+            "@arch", "@wantlib", "@tag", "@define-tag", "@url", "@sha", "@size", "@ts", "@link", "@symlink", "@mandir", "@rcscript", "@ask-update", "@signer", "@digital-signature", "@file",
+            "@ignore_inst", "@origin", "@deporigin", "@exec-add", "@unexec-delete", "@endfake", "@localbase", "@pkgpath", "@vendor", "@extraunexec", "@cwdir", "@chdir", "@blddeps", "@pkgdeps", "@version", "@provides",
+        ];
+        for cmd in FOREIGN {
+            for line in [cmd.to_string(), format!("{} +MTREE_DIRS", cmd), format!("{} p-[0-9]*", cmd), format!("{} ", cmd)] {
+                let line = line.into_bytes();
+                t.states += 1;
+                check_line(&mut t, &line);
+                check_text(&mut t, &[b"@name p-1\n".as_slice(), &line, b"\nbin/x\n"].concat());
+            }
+        }
+        run.bound(format!("typed-looking arguments: {} values (typed-looking texts, patterns that do and do not compile) after every command and as a file name; {} directives of sibling tools x 4 argument shapes", values.len(), FOREIGN.len()));
+        run.merge(t);
+    }
     // byte sweep: every byte value in nine line positions
     {
         let mut t = Tally::new();
